@@ -187,6 +187,11 @@ def answerLine (line : String) : String :=
   let toks := (line.trimAscii.toString.splitOn " ").filter (· != "")
   let (req, ans) := splitArrow toks
   if (req.head?.getD "").startsWith "x_" then answerHookLine req ans else
+  -- `op@fromstr`, `op@tryfrom`, `op@t`: the same operation through the crate's conversion-trait impls (`FromStr`,
+  -- `TryFrom<&str>`, `From`/`TryFrom` between decimals and primitives); one operation in the model and for the oracle
+  let req := match req with
+    | op :: rest => ((op.splitOn "@").head?.getD op) :: rest
+    | [] => []
   let verdict := match judge req ans with
     | some cs => showComplaints cs
     | none => "BAD"
